@@ -955,3 +955,59 @@ pub fn table_iter_seek_twice(options: &DbOptions, target: (&[u8], u64)) -> Optio
     let cur = if it.is_valid() { it.current().map(|(k, _)| (k.get_user_key().to_vec(), k.get_sequence_number())) } else { None };
     Some((e1, e2, cur))
 }
+
+/// `VersionBuilder::accumulate_changes` + `apply_changes`: apply an edit (deleted `(level, number)`, added files) to a version
+/// holding `base`. Returns the file numbers per level of the new version, or the panic message.
+pub fn version_builder_apply(
+    options: DbOptions,
+    base: &[(usize, Vec<VFile>)],
+    deleted: &[(usize, u64)],
+    added: &[(usize, Vec<VFile>)],
+) -> Result<Vec<Vec<u64>>, String> {
+    let r = std::panic::catch_unwind(std::panic::AssertUnwindSafe(|| {
+        let (v, _tc) = version_with(&options, base);
+        let node = Arc::new(parking_lot::RwLock::new(Node::new(v)));
+        let mut m = VersionChangeManifest::default();
+        for (level, number) in deleted {
+            m.remove_file(*level, *number);
+        }
+        for (level, files) in added {
+            for f in files {
+                m.add_file(
+                    *level,
+                    f.0,
+                    f.1,
+                    InternalKey::new(f.2 .0.clone(), f.2 .1, Operation::Put)..InternalKey::new(f.3 .0.clone(), f.3 .1, Operation::Put),
+                );
+            }
+        }
+        let mut b = crate::versioning::version_builder::VersionBuilder::new();
+        b.accumulate_changes(&m);
+        let mut ptrs: [Option<InternalKey>; 7] = Default::default();
+        let nv = b.apply_changes(&node, 0, 0, &mut ptrs);
+        nv.files.iter().map(|l| l.iter().map(|f| f.file_number()).collect::<Vec<u64>>()).collect::<Vec<_>>()
+    }));
+    r.map_err(|e| {
+        e.downcast_ref::<String>()
+            .cloned()
+            .or_else(|| e.downcast_ref::<&str>().map(|s| s.to_string()))
+            .unwrap_or_else(|| "panic".to_string())
+    })
+}
+
+/// Install files at the given levels through `log_and_apply` and compare the numbers of the current version with
+/// `VersionSet::get_live_files`. Returns (installed numbers, live numbers).
+pub fn vset_live_files(options: DbOptions, levels: &[(usize, Vec<VFile>)]) -> (Vec<u64>, Vec<u64>) {
+    let (guarded, _tc) = vset_with(&options, levels);
+    let g = guarded.lock();
+    let cur = g.version_set.get_current_version();
+    let mut installed = vec![];
+    for files in cur.read().element.files.iter() {
+        for f in files.iter() {
+            installed.push(f.file_number());
+        }
+    }
+    let mut live: Vec<u64> = g.version_set.get_live_files().into_iter().collect();
+    live.sort();
+    (installed, live)
+}
